@@ -138,6 +138,7 @@ type Engine struct {
 	notes    []string
 	conc     bool
 
+	ordinals      map[string]int
 	fnByKey       map[string]*ssa.Function
 	forceInline   map[string]bool
 	usedContracts map[string]bool
@@ -169,6 +170,7 @@ func (x *Engine) reset(fn string) {
 	x.notes = nil
 	x.conc = false
 	x.usedContracts = map[string]bool{}
+	x.ordinals = map[string]int{}
 	x.panicking = nil
 	x.recovered = nil
 	x.poolEvents = nil
